@@ -85,6 +85,7 @@ type Op struct {
 	Deadline  time.Duration
 	Legacy    bool
 	Sibling   bool // C01: sent to the sibling log of the same process (its own key and backend)
+	Retried   bool // external modes: the submission was refused over a chain-store fault and has been retried once
 	SlowWrite bool // the client reads the response slowly: Write parks before taking the bytes
 	// WriteFailed: the client's connection broke while the response was being written (a Write returned an error,
 	// possibly after taking part of the bytes): nobody received this response, so nobody judges it
